@@ -393,6 +393,10 @@ def execute(sc):
             for i in range(N_SOURCES)]
     srcs0 = srcs
     luafile = core.dec_bytes(sc['luafile'])
+    if sc['seed'] % 4 == 1 and not luafile.rstrip().endswith(b'q=2'):
+        # round 8: the program ends with a return statement at its root (a
+        # library module developed with a test game loop around it)
+        luafile = luafile.rstrip(b'\n') + b'\nreturn main_marker\n'
     with world.World(env={'SND': 'drums'}) as w:
         w.mkdir('in')
         w.mkdir('out')
